@@ -19,10 +19,12 @@ NoPol == Mk("none", FALSE, <<>>)
 Firsts(dummy) ==
   IF Explicit(Scope) THEN SetToSeq(ExplicitPolicies(Scope))
   ELSE SetToSeq({Mk(d, x, <<g>>) : d \in Defaults(Scope), x \in Targets(Scope), g \in GroupSet(Scope)})
+\* a constant-level definition: TLC evaluates it once and caches the value (a LET inside the action would be
+\* re-evaluated for every use)
+FirstsSeq == Firsts(0)
 Init == pol = NoPol /\ shard \in 0..(NShards - 1)
 Pick == /\ pol = NoPol
-        /\ LET all == Firsts(0) IN
-           \E i \in 1..Len(all) : i % NShards = shard /\ pol' = all[i]
+        /\ \E i \in 1..Len(FirstsSeq) : i % NShards = shard /\ pol' = FirstsSeq[i]
         /\ UNCHANGED shard
 AddGroup == /\ pol # NoPol
             /\ ~Explicit(Scope)
